@@ -965,4 +965,7 @@ def _run_after_flatten(check, an: Analysis):
                    'env.run inside a usim simulation raises NotCompatibleError')
     check.instance('U', 'run:returns-event-value', kinds.get('returns') is True,
                    where_fn(runm.fn), 'run(until=event) returns the event\'s value')
+    # the kernel rules every suspending operation rests on (shared; see _scope)
+    from . import _scope as _kernel
+    _kernel.check_kernel_core(check, an)
     check.stats.update(an.stats())
